@@ -17,7 +17,7 @@ EXTRA_FILES = {"helper_mod.py": HELPER_MOD, "bad_mod.py": "y = 2\nraise ValueErr
                "exit_mod.py": "import sys\nsys.exit(2)\n", "fn_mod.py": "def boom():\n    raise KeyError('k')\n",
                "kb_mod.py": "raise KeyboardInterrupt\n",
                "ci_mod.py": "class TwoArgs(Exception):\n    def __init__(self, a, b):\n        super().__init__('two %s %s' % (a, b))\nraise TwoArgs(1, 2)\n"}
-MODE_STMT = {"normal": "pass", "closeOut": "sys.stdout.close()", "exc": "raise ValueError('boom')", "excBrokenStr": "raise BrokenStr()",
+MODE_STMT = {"normal": "pass", "consoleFail": "print('\\xe9')", "closeOut": "sys.stdout.close()", "exc": "raise ValueError('boom')", "excBrokenStr": "raise BrokenStr()",
              "excBrokenRepr": "raise BrokenRepr()", "exit": "exit()", "sysexit": "sys.exit(3)",
              "raiseSysExit": "raise SystemExit", "recursion": "rec()", "syntax": "x = (",
              "nul": "x = 1\0", "blockedEval": "eval('1')", "blockedOpenW": "open('out.txt', 'w')",
@@ -51,7 +51,7 @@ MODE_STMT = {"normal": "pass", "closeOut": "sys.stdout.close()", "exc": "raise V
              "reraise": (["try:", "    raise ValueError('boom')", "except ValueError:", "    cleanup = 1", "    raise"], 1),
              "nested": (["helper_raises()"], None)}
 # class of the exception the sandbox must expose for each mode
-MODE_CLASS = {"exc": "ValueError", "excBrokenStr": "BrokenStr", "excBrokenRepr": "BrokenRepr",
+MODE_CLASS = {"exc": "ValueError", "consoleFail": "UnicodeEncodeError", "excBrokenStr": "BrokenStr", "excBrokenRepr": "BrokenRepr",
               "exit": "FunctionNotAllowed", "sysexit": "SystemExit", "raiseSysExit": "SystemExit",
               "recursion": "RecursionError", "syntax": "SyntaxError", "nul": ("SyntaxError", "ValueError"),
               "blockedEval": "FunctionNotAllowed", "blockedOpenW": "RuntimeError", "importPedal": "RuntimeError",
@@ -165,7 +165,7 @@ class Harness:
         # the "real console" that run(real_io=True) echoes to (pedal remembers sys.stdout at import time)
         import io as _io
         from pedal.sandbox import mocked as _mocked
-        self.console = _io.StringIO()
+        self.console = _io.TextIOWrapper(_io.BytesIO(), encoding="ascii", write_through=True)     # an ASCII terminal
         _mocked.PrintingStringIO._ORIGINAL_STDOUT = self.console
         self.threaded = bool(file.get("threaded", False))
         # nested imports of student files consult the sandbox's own flag, not the per-call argument
@@ -288,8 +288,8 @@ class Harness:
                 "pOut": "patched" if patched_out else "real", "pSleep": "patched" if patched_sleep else "real",
                 "pMods": "real" if same_mods else "patched",
                 "patches": len(sb._current_patches), "stdouts": len(sb._current_stdout),
-                "raw": list(sb.raw_output), "lines": [list(x) for x in sb.output],
-                "ctxs": [{"out": list(c.output), "inputs": list(c.inputs)} for c in sb._context],
+                "raw": list(sb.raw_output.replace("\xe9", "E")), "lines": [list(x.replace("\xe9", "E")) for x in sb.output],
+                "ctxs": [{"out": list(c.output.replace("\xe9", "E")), "inputs": list(c.inputs)} for c in sb._context],
                 "inputs": list(sb.inputs) if isinstance(sb.inputs, list) else ["<callable>"],
                 "exc": exc, "fbs": list(self.fbs), "status": status, "lineinfo": lineinfo}
         return proj
